@@ -1,6 +1,7 @@
 import Driver.Proto
 import Driver.OpsSpec
 import Driver.OpsBits
+import Driver.OpsHist
 open Driver
 
 /-- stateless op families: each returns `none` for ops it does not know -/
@@ -8,25 +9,31 @@ def families : List (String → List String → List String → Option (Except S
   [ OpsSpec.handle, OpsBits.handle ]
 
 /-- dispatch one line `op args… => impl observation…`: returns `<model> ## <verdict>` -/
-def handleLine (line : String) : String :=
+def handleLine (hs : OpsHist.HState) (line : String) : OpsHist.HState × String :=
   let (op, impl) := splitLine line
   match op with
-  | [] => "- ## skip"
+  | [] => (hs, "- ## skip")
   | name :: args =>
-    if name.startsWith "#" then "- ## skip" else
+    if name.startsWith "#" then (hs, "- ## skip") else
+    match OpsHist.handle hs name args impl with
+    | some (Except.ok (hs', m, v)) => (hs', s!"{m} ## {v}")
+    | some (Except.error e) => (hs, s!"- ## ERROR:{e}")
+    | none =>
+    (hs,
     let r : Option (Except String (String × String)) := families.findSome? (fun f => f name args impl)
     match r with
     | some (Except.ok (m, v)) => s!"{m} ## {v}"
     | some (Except.error e) => s!"- ## ERROR:{e}"
-    | none => s!"- ## ERROR:unknown-op {name}"
+    | none => s!"- ## ERROR:unknown-op {name}")
 
-partial def loop (h : IO.FS.Stream) (out : IO.FS.Stream) : IO Unit := do
+partial def loop (h : IO.FS.Stream) (out : IO.FS.Stream) (hs : OpsHist.HState) : IO Unit := do
   let line ← h.getLine
   if line.isEmpty then return ()
-  out.putStrLn (handleLine (line.trimAsciiEnd.toString))
-  loop h out
+  let (hs', res) := handleLine hs (line.trimAsciiEnd.toString)
+  out.putStrLn res
+  loop h out hs'
 
 def main : IO Unit := do
   let stdin ← IO.getStdin
   let stdout ← IO.getStdout
-  loop stdin stdout
+  loop stdin stdout {}
